@@ -1,10 +1,18 @@
 /-
   C13 — priority compression yields strictly dominating weights.
-  Theorems about the optimized bit allocation (the weights `shadow` assigns); the 2-D/3-D
-  plumbing around it (last non-zero per column, sorting, sign restoration, prio / rank /
-  first / last / min / max) is tied by the correspondence and judged by the oracle.
+  Two layers of theorems.  (1) About the optimized bit allocation `oba` over an integer sequence (what
+  puan-rspy computes; tied by op `oba`).  (2) About `shadow` itself in its key form `shadowSpec`
+  (key of a column = row of its last non-zero entry, then magnitude): zeros kept, sign kept, equal
+  keys equal magnitudes, strictly smaller key strictly smaller magnitude, and every magnitude = 1 + the
+  sum of the magnitudes of all columns ranked strictly below it (`shadow_clauses`, `weight_dominates`,
+  `weight_strict_mono`, `shadow_strictly_dominates`).  That `ndint_compress(method="shadow")` computes
+  `shadowSpec` (1-D, 2-D on both axes, 3-D batches) is tied by the correspondence: the driver answers
+  both with the model that mirrors the code's plumbing (`shadow2d`) and with `shadowSpec`, and both must
+  equal the implementation's output.  prio / rank / first / last / min / max are tied by the
+  correspondence and judged by the oracle, not proved.
 -/
 import Puan.Model.Prio
+import Puan.Lemmas.Shadow
 namespace Puan.C13
 open Puan Prio
 
@@ -122,5 +130,59 @@ theorem oba_mono (xs : List Int) (i : Nat) (a b wa wb : Int)
 
 /-- non-vacuity: three runs -/
 example : oba [1, 1, -2, -2, 3] = [1, 1, 3, 3, 9] ∧ oba [2, 2, -5, -5, -5, 7] = [1, 1, 3, 3, 3, 12] := by decide
+
+/-! ### `shadow` by keys: the five clauses of the statement -/
+
+section shadow
+open Prio
+
+/-- **dominance over the columns' keys**: the weight of a key equals 1 + the sum, over all keys of the
+    input list (one per column, with multiplicity) that are strictly smaller, of their weights -/
+theorem weight_dominates (ks : List Key) (k : Key) (hk : k ∈ ks) :
+    weightOf (table ks) k = 1 + keySumBelow (weightOf (table ks)) k ks := by
+  rw [(weightOf_spec ks k hk).1, sumBelow_eq_keySum ks k (table ks) (weightOf_entry ks), table_keys,
+    keySumBelow_perm _ k (sortK_perm ks)]
+
+/-- weights are ordered like keys: a strictly smaller key has a strictly smaller weight -/
+theorem weight_strict_mono (ks : List Key) (j k : Key) (hj : j ∈ ks) (hk : k ∈ ks) (hlt : Key.lt j k) :
+    weightOf (table ks) j < weightOf (table ks) k := by
+  have := weight_dominates ks k hk
+  have := keySumBelow_ge_of_mem ks k j ks (fun _ h => h) hj hlt
+  omega
+
+theorem shadowSpec_eq (m : Mat) :
+    shadowSpec m = ((List.range (ncols m)).map (col m)).map
+      (entry (table (((List.range (ncols m)).map (col m)).filterMap keyOf))) := rfl
+
+/-- Clauses of C13 for the `shadow` weights `w = shadowSpec m`, column by column (`cols` = the columns of `m`,
+    `ks` = their keys): zeros are kept, the sign is the sign of the column's last non-zero entry, the magnitude is a
+    function of the key (equal priorities, equal weights), strictly smaller keys get strictly smaller magnitudes, and
+    each magnitude is 1 + the sum of the magnitudes of *all* columns ranked strictly below it. -/
+theorem shadow_clauses (cols : List (List Int)) (c : List Int) (hc : c ∈ cols) :
+    let ks := cols.filterMap keyOf
+    let t := table ks
+    (keyOf c = none → entry t c = 0) ∧
+    (∀ k, keyOf c = some k →
+        entry t c = Prio.sgnOf c * weightOf t k ∧ 1 ≤ weightOf t k ∧ (Prio.sgnOf c = 1 ∨ Prio.sgnOf c = -1) ∧
+        weightOf t k = 1 + keySumBelow (weightOf t) k ks ∧
+        (∀ c' ∈ cols, ∀ k', keyOf c' = some k' → Key.lt k' k → weightOf t k' < weightOf t k)) := by
+  intro ks t
+  refine ⟨fun h => by simp [entry, h], fun k hk => ?_⟩
+  have hmem : k ∈ ks := List.mem_filterMap.2 ⟨c, hc, hk⟩
+  refine ⟨by simp [entry, hk], (weightOf_spec ks k hmem).2, sgnOf_of_key c k hk, weight_dominates ks k hmem, ?_⟩
+  intro c' hc' k' hk' hlt
+  exact weight_strict_mono ks k' k (List.mem_filterMap.2 ⟨c', hc', hk'⟩) hmem hlt
+
+/-- the dominance clause in the statement's words: the magnitude of a weight strictly exceeds the sum of the
+    magnitudes of all lower priorities -/
+theorem shadow_strictly_dominates (ks : List Key) (k : Key) (hk : k ∈ ks) :
+    weightOf (table ks) k > keySumBelow (weightOf (table ks)) k ks := by
+  have := weight_dominates ks k hk; omega
+
+end shadow
+
+/-- non-vacuity of the key form: an empty level between two used ones (the witness of seeded change C13-a) -/
+example : shadowSpec [[1, 2, 0], [0, 0, 0], [0, 0, 2]] = [1, 2, 4] ∧
+    shadowSpec [[1, -2, 3, 0], [0, 5, -5, 0], [2, 0, 0, 0]] = [3, 1, -1, 0] := by decide
 
 end Puan.C13
